@@ -7,7 +7,8 @@
   reader that may call `Status`, `Stream` (ViewJob / ResumeJob) or be a whole server restart at
   any point between two effects.
 
-  The goroutine of `FSResults.Spool`, statement by statement (storage.go:169-192):
+  The goroutine of `FSResults.Spool`, statement by statement (storage.go:177-205, the order
+  AFTER fix 3895728 — variant `direct`):
 
       job.setState(RUNNING)                              -- pc start
       defer resultFile.Close()
@@ -18,17 +19,38 @@
       }
       statusFile, err := os.Create(statusPath)           -- pc create  (or: fails, state ERROR)
       defer statusFile.Close()
+      final := job.getStatus(); final.State = COMPLETE
+      out, _ := json.Marshal(&jobFile{Status: final, …})
+      statusFile.Write(out + "\n")                       -- pc writeStatus (content: COMPLETE, count)
       job.setState(COMPLETE)                             -- pc setComplete
-      out, _ := json.Marshal(job)
-      statusFile.Write(out + "\n")                       -- pc writeStatus
       -- deferred: statusFile.Close(), resultFile.Close()   pc close
 
-  `Variant` makes the placement of a writer-side buffer a parameter of the same program:
-  * `direct` — the code as it is: every `Write` goes to the file.
-  * `flushAfter cap` — the regression that was seeded twice: `w := bufio.NewWriter(resultFile);
-    defer w.Flush()`; the rows go to `w`, the deferred `Flush` runs when the goroutine returns,
-    i.e. AFTER `setState(COMPLETE)` and after the status file is written (pc flushPost).
-  * `flushBefore cap` — the same writer with `w.Flush()` right after the loop (pc flushPre).
+  The order BEFORE fix 3895728 (variant `directOld`, kept frozen) had the two last effects the
+  other way round:
+
+      statusFile, err := os.Create(statusPath)           -- pc create
+      job.setState(COMPLETE)                             -- pc setComplete
+      out, _ := json.Marshal(job)
+      statusFile.Write(out + "\n")                       -- pc writeStatus (content: job's state, count)
+
+  `Variant` makes the order of these two effects and the placement of a writer-side buffer
+  parameters of the same program:
+  * `direct` — the code as it is: every `Write` goes to the file; the status file is written
+    BEFORE `setState(COMPLETE)`.
+  * `directOld` — the code as it was before fix 3895728: every `Write` goes to the file; the
+    status file is written AFTER `setState(COMPLETE)`.
+  * `flushAfter cap` — the regression that was seeded twice, on top of the repaired order:
+    `w := bufio.NewWriter(resultFile); defer w.Flush()`; the rows go to `w`, the deferred `Flush`
+    runs when the goroutine returns, i.e. AFTER the status file is written and AFTER
+    `setState(COMPLETE)` (pc flushPost).
+  * `flushBefore cap` — the same writer with `w.Flush()` right after the loop (pc flushPre),
+    status file before `setState(COMPLETE)` as in the repaired code.
+  (`Variant.statusFirst`: the status file is written before the state change — everything but
+  `directOld`.)
+  Not modelled: an error of `json.Marshal` (old code: ignored; new code, storage.go:195-199: the
+  `Write` is skipped and `setState(COMPLETE)` still runs — that path would be the old window
+  again, COMPLETE in memory over an empty status file, for good; it marshals the same fields the
+  old code did), a failing or short `statusFile.Write` (its result is not checked either).
   The buffer holds whole rows; `cap = some c` spills when a row arrives while `c` rows are
   already buffered (`none`: never).  A spill of a `bufio.Writer` does not respect row
   boundaries: the label `spoolCut` is the spill that leaves a proper prefix of the arriving row
@@ -55,7 +77,10 @@ open Grip.C11 (JobState)
 /-- Where the rows go, and (if they are buffered) where the buffer is flushed.
     `cap`: `some c` = room for `c` rows, `none` = unbounded. -/
 inductive Variant where
+  /-- the code as it is (after fix 3895728): unbuffered, status file BEFORE `setState(COMPLETE)` -/
   | direct
+  /-- the code as it was (before fix 3895728): unbuffered, status file AFTER `setState(COMPLETE)` -/
+  | directOld
   | flushAfter (cap : Option Nat)
   | flushBefore (cap : Option Nat)
   deriving Repr, DecidableEq
@@ -64,15 +89,23 @@ namespace Variant
 
 def buffered : Variant → Bool
   | .direct => false
+  | .directOld => false
   | _ => true
 
-/-- The order of effects is safe: unbuffered, or flushed before the state change. -/
+/-- The status file is written BEFORE `setState(COMPLETE)` (the repaired order). -/
+def statusFirst : Variant → Bool
+  | .directOld => false
+  | _ => true
+
+/-- The order of effects is safe for the ROWS: unbuffered, or flushed before the status file is
+    written and the state changes. -/
 def safe : Variant → Bool
   | .flushAfter _ => false
   | _ => true
 
 def cap? : Variant → Option Nat
   | .direct => none
+  | .directOld => none
   | .flushAfter c => c
   | .flushBefore c => c
 
@@ -130,10 +163,34 @@ def Variant.afterLoop {α : Type} : Variant → PC α
   | .flushBefore _ => .flushPre
   | _ => .create
 
-/-- after the status file is written, or after `os.Create` failed: the deferred calls -/
+/-- after the last of `statusFile.Write` / `setState(COMPLETE)`, or after `os.Create` failed:
+    the deferred calls -/
 def Variant.epilogue {α : Type} : Variant → PC α
   | .flushAfter _ => .flushPost
   | _ => .close
+
+/-- after `os.Create(statusPath)` succeeded -/
+def Variant.afterCreate {α : Type} : Variant → PC α
+  | .directOld => .setComplete
+  | _ => .writeStatus
+
+/-- after `statusFile.Write` -/
+def Variant.afterWriteStatus {α : Type} : Variant → PC α
+  | .directOld => .close
+  | _ => .setComplete
+
+/-- after `job.setState(COMPLETE)` -/
+def Variant.afterSetComplete {α : Type} : Variant → PC α
+  | .directOld => .writeStatus
+  | .flushAfter _ => .flushPost
+  | _ => .close
+
+/-- the state that `statusFile.Write` puts in the status file: the old code marshals the job
+    (whose state is COMPLETE by then), the repaired code a copy with `State = COMPLETE` -/
+def Variant.writtenState (v : Variant) (st : JobState) : JobState :=
+  match v with
+  | .directOld => st
+  | _ => .complete
 
 structure St (α : Type) where
   /-- rows the marshalling stage has not delivered yet -/
@@ -184,9 +241,10 @@ def spoolStep (v : Variant) (s : St α) : Option (St α) :=
   | .newline r => some { s with file := s.file ++ [r], tail := .clean, pc := .addCount }
   | .addCount => some { s with count := s.count + 1, pc := .fetch }
   | .flushPre => some { s.flush with pc := .create }
-  | .create => some { s with statusFile := some none, pc := .setComplete }
-  | .setComplete => some { s with state := .complete, pc := .writeStatus }
-  | .writeStatus => some { s with statusFile := some (some (s.state, s.count)), pc := v.epilogue }
+  | .create => some { s with statusFile := some none, pc := v.afterCreate }
+  | .setComplete => some { s with state := .complete, pc := v.afterSetComplete }
+  | .writeStatus =>
+    some { s with statusFile := some (some (v.writtenState s.state, s.count)), pc := v.afterWriteStatus }
   | .flushPost => some { s.flush with pc := .close }
   | .close => some { s with pc := .done }
   | .done => none
